@@ -235,3 +235,82 @@ package eval
 //@   ensures* every.expression.executed: forall i int :: 0 <= i && i < len(set) && set[i] != nil && implements(set[i], Source) ==> select(dslRan, set[i])
 //@   loop 1 invariant progress: 0 <= executed && executed <= len(set) && (forall i int :: 0 <= i && i < executed && set[i] != nil && implements(set[i], Source) ==> select(dslRan, set[i]))
 //@   loop 2 invariant progress: 0 <= executed && executed <= len(set) && len(ranged(2)) <= len(set) && executed == len(set) - len(ranged(2)) + rangeidx(2) + 1 && ranged(2).arr == set.arr && ranged(2).off == set.off + (len(set) - len(ranged(2))) && (forall i int :: 0 <= i && i < executed && set[i] != nil && implements(set[i], Source) ==> select(dslRan, set[i]))
+
+// ---- the DSL engine's helpers (C12) --------------------------------------------------------------------
+// "DSL functions check eval.Current() and report IncompatibleDSL/InvalidArgError instead of failing": the
+// reporting helpers record exactly one more error in the context (so a misplaced call makes RunDSL fail) and,
+// like Current, are free of implicit panics. The evaluation context exists (eval.Reset, run by the
+// package's init).
+//@ block dslContext
+//@   requires context.exists: Context != nil
+//@   unknown_calls_preserve global(Context), fieldsOf(DSLContext)
+// (ASSUMED frames: caller and computeErrorLocation read the Go call stack and the working directory, EvalName
+// formats a name; none of them writes the design model or the evaluation context)
+//@ func caller
+//@   trusted
+//@   modifies nothing
+//@ func computeErrorLocation
+//@   trusted
+//@   modifies nothing
+//@ iface goa.design/goa/v3/eval.Expression.EvalName
+//@   params e
+//@   modifies nothing
+//@ func Stack.Current
+//@   params s
+//@   property C12
+//@   opt safety full
+//@   ensures* top.of.stack: (len(s) == 0 ==> result == nil) && (len(s) > 0 ==> result == s[len(s) - 1])
+//@   modifies nothing
+//@ func Current
+//@   property C12
+//@   opt safety full
+//@   use dslContext
+//@   ensures* never.nil: result != nil
+//@   ensures* innermost.expression: len(Context.Stack) > 0 && Context.Stack[len(Context.Stack) - 1] != nil ==> result == Context.Stack[len(Context.Stack) - 1]
+//@   ensures* top.when.empty: len(Context.Stack) == 0 ==> typeIs(result, TopExpr)
+//@   modifies nothing
+//@ func (*DSLContext).Record
+//@   params c err
+//@   property C12
+//@   opt safety full
+//@   requires c != nil
+//@   ensures* one.more.error: len(c.Errors) == old(len(c.Errors)) + 1 && c.Errors != nil
+//@   ensures c.Errors[len(c.Errors) - 1] == err
+//@   modifies c.Errors, elems(c.Errors)
+//@ func ReportError
+//@   params fm vals
+//@   property C12
+//@   opt safety full
+//@   opt inline none
+//@   use dslContext
+//@   ensures* one.more.error: len(Context.Errors) == old(len(Context.Errors)) + 1 && Context.Errors != nil && Context == old(Context)
+//@   modifies Context.Errors, elems(Context.Errors)
+//@ func IncompatibleDSL
+//@   property C12
+//@   opt safety full
+//@   opt inline none
+//@   use dslContext
+//@   ensures* one.more.error: len(Context.Errors) == old(len(Context.Errors)) + 1 && Context.Errors != nil && Context == old(Context)
+//@   modifies Context.Errors, elems(Context.Errors)
+//@ func InvalidArgError
+//@   params expected actual
+//@   property C12
+//@   opt safety full
+//@   opt inline none
+//@   use dslContext
+//@   ensures* one.more.error: len(Context.Errors) == old(len(Context.Errors)) + 1 && Context.Errors != nil && Context == old(Context)
+//@   modifies Context.Errors, elems(Context.Errors)
+//@ func TooFewArgError
+//@   property C12
+//@   opt safety full
+//@   opt inline none
+//@   use dslContext
+//@   ensures* one.more.error: len(Context.Errors) == old(len(Context.Errors)) + 1 && Context.Errors != nil && Context == old(Context)
+//@   modifies Context.Errors, elems(Context.Errors)
+//@ func TooManyArgError
+//@   property C12
+//@   opt safety full
+//@   opt inline none
+//@   use dslContext
+//@   ensures* one.more.error: len(Context.Errors) == old(len(Context.Errors)) + 1 && Context.Errors != nil && Context == old(Context)
+//@   modifies Context.Errors, elems(Context.Errors)
